@@ -81,6 +81,10 @@ def fixed_cases(tier):
             out.append(mk(r, [lo, lo + 1, 5], discs=[sp, None, "5"]))
         out.append(mk(r, [lo, lo + 1, lo + 9, -1, 0], discs=[spell[0], None, _lit(lo + 9), "-1%s" % r, None],
                       feats=("as_str", "iter", "range", "into", "try_from", "next", "next_back", "MIN", "MAX"), modes={"as_str": "table", "iter": "table"}))
+    # declarations that start with implicit variants and continue below zero
+    for spec in C.zero_first_specs():
+        out.append({"spec": spec, "cfg": S.simple_config(["into", "try_from", "iter", "range", "next", "next_back", "as_str", "from_str", "FromStr", "MIN", "MAX"],
+                                                         {"as_str": "table", "from_str": "table", "FromStr": "table"}), "seed": 10})
     # run-length matrix (runs of 63/64/65/127/128/129/255/256/257 values)
     for spec in C.run_length_specs():
         out.append({"spec": spec, "cfg": S.simple_config(["into", "try_from", "iter", "range", "next", "next_back", "as_str", "from_str"]), "seed": 8})
